@@ -267,6 +267,28 @@ theorem attribution_by_channel (allLocal : Bool) (m : SlmMask) (views : List Cha
   · rintro ⟨v, hv, i, hiv, hh⟩
     exact ⟨i, mem_nestedInstrsFrom.mpr ⟨k, v, hv, by simpa using hiv⟩, hh⟩
 
+/-- **Per-atom phase, committed rule** (`d[..][PHASE] += cs.phase`): the phase sample of an
+entry is the sum of the painted phases of *every* channel written into the entry at that
+time.  So over a pulse it is that pulse's phase exactly when its channel is the only writer
+(with `phase_on_pulse` for the channel's own array); with a second writer of the same basis
+and addressing class it is not — finding F-C06-1 (F23 of C05). -/
+theorem per_atom_phase_sum (instrs : List NInstr) (b : Basis) (q : Option Nat) (t : Int) :
+    entryPhaseSum ((attribAt instrs b q t).map (·.1)) = (attribAt instrs b q t).map (·.1) ∧
+    (∀ k w, attribAt instrs b q t = [(k, w)] → entryPhaseSum ((attribAt instrs b q t).map (·.1)) = [k]) := by
+  refine ⟨rfl, fun k w h => ?_⟩
+  rw [h]; rfl
+
+/-- **Per-atom phase, repaired rule** (`_add_channel_samples`): whenever exactly one of the
+channels written into an entry has a non-zero amplitude at that time, the entry's phase is
+the painted phase of that channel alone — whatever the other channels' phases are. -/
+theorem per_atom_phase_single_drive (instrs : List NInstr) (on : Nat → Bool) (b : Basis) (q : Option Nat)
+    (t : Int) (pre post : List Nat) (k0 : Nat)
+    (hw : (attribAt instrs b q t).map (·.1) = pre ++ k0 :: post)
+    (hk0 : on k0 = true) (hpre : ∀ k ∈ pre, on k = false) (hpost : ∀ k ∈ post, on k = false) :
+    nestedPhaseAt instrs on b q t = [k0] := by
+  unfold nestedPhaseAt
+  rw [hw, entryPhase_single on pre post k0 hk0 hpre hpost]
+
 /-! ### Non-vacuity: a reachable sequence meets the hypotheses -/
 
 def exGlobal : ChanCfg := { clock := 4, minDur := 16, rise := 120, pjt := 240, maxDur := some 1000 }
@@ -363,6 +385,15 @@ example :
     attribAt (chanInstrs false m 0 v) .xy none 104 = [(0, 1)] ∧
     attribAt (chanInstrs true m 0 v) .xy (some 1) 50 = [] ∧
     attribAt (chanInstrs true m 0 v) .xy (some 1) 550 = [(0, 1)] := by decide +kernel
+/-- per_atom_phase_sum / per_atom_phase_single_drive: both channels are written into the `Local`
+entry of atom 1 under `all_local`; the committed rule sums both phases, the repaired rule keeps
+the phase of the channel that drives (at t = 30 the local one, position 1). -/
+example :
+    let ins := nestedInstrs true {} [{ (exG.view []) with basis := .digital }, exL.view []]
+    (attribAt ins .digital (some 1) 30).map (·.1) = [0, 1] ∧
+    nestedPhaseAt ins (fun k => k == 1) .digital (some 1) 30 = [1] ∧
+    nestedPhaseAt ins (fun k => k == 0) .digital (some 1) 30 = [0] ∧
+    nestedPhaseAt ins (fun _ => true) .digital (some 1) 30 = [0, 1] := by decide +kernel
 /-- DMM weights: the detuning of a DMM is weighted per atom. -/
 example :
     let v : ChanView := { (exG.view [1/4, 0, 3/4]) with isDmm := true }
